@@ -1,4 +1,235 @@
-//! C04 monitor (not written yet).
-pub fn run(_ctx: &crate::ctx::Ctx, report: &mut vcore::Report) {
-    report.notes.push("stub".into());
+//! C04 – a client call reaches the matching server handler with identical arguments, and the
+//! client returns exactly what the handler returned (blocking and async, JSON and Smile).
+//!
+//! Events: `call` (what the monitor handed to the generated / macro client), `handler` (what the
+//! recording handler saw, at the server trait boundary), `return` (what the client gave back).
+//! The transport in between is `labrt`'s loop-back (random re-chunking, `Pending` between chunks).
+use crate::ctx::{guarded, Ctx};
+use crate::gen::sink::*;
+use crate::hand;
+use crate::svc::*;
+use conjure_error::Error;
+use conjure_http::client::{AsyncService, Service};
+use conjure_serde::smile;
+use labrt::{block_on, AsyncLoopback, Exchange, Loopback};
+use serde::de::DeserializeOwned;
+use serde::Serialize;
+use serde_json::json;
+use std::sync::Arc;
+use vcore::rng::fnv;
+use vcore::{Report, Rng};
+
+pub fn features(args: &[(&'static str, String)]) -> String {
+    let all: String = args.iter().map(|(_, v)| v.as_str()).collect::<Vec<_>>().join("\u{1}");
+    let mut f = String::new();
+    for (c, pat) in [
+        ('%', "%"), ('/', "/"), ('+', "+"), ('&', "&"), ('#', "#"), ('?', "?"), ('=', "="), (' ', " "), ('e', "\"\""), ('n', "null"), ('N', "NaN"), ('[', "[]"),
+    ] {
+        if all.contains(pat) {
+            f.push(c);
+        }
+    }
+    if !all.is_ascii() {
+        f.push('U');
+    }
+    f
+}
+
+pub struct Outcome {
+    pub result: Result<Result<String, Error>, String>,
+    pub calls: Vec<Call>,
+    pub exchange: Exchange,
+}
+
+/// The oracle over one call's events.
+pub fn judge(rep: &mut Report, sub: &str, seed: u64, flavour: &str, endpoint: &'static str, args: &[(&'static str, String)], header_texts: &[&str], expect_handler_error: bool, out: Outcome) {
+    let headers_ok = header_texts.iter().all(|s| visible_ascii(s));
+    let class = match &out.result {
+        Err(_) => "panic",
+        Ok(Ok(_)) => "ok",
+        Ok(Err(_)) => "err",
+    };
+    rep.evaluations += 1;
+    rep.cell(&format!("{}/{}/{}", flavour, endpoint, class));
+    rep.distinct.insert(fnv(&format!("{}|{}|{}|{}|{}", flavour, endpoint, class, features(args), headers_ok)));
+    let detail = |what: &str, extra: serde_json::Value| {
+        json!({"flavour": flavour, "endpoint": endpoint, "what": what, "supplied": args, "handler_events": out.calls.iter().map(|c| json!({"endpoint": c.endpoint, "args": c.args, "ret": c.ret})).collect::<Vec<_>>(),
+               "uri": out.exchange.uri, "status": out.exchange.status, "extra": extra})
+    };
+    let mut fail = |rep: &mut Report, what: &str, extra: serde_json::Value| {
+        rep.violation(sub, seed, format!("{}:{}:{}", flavour.split('/').next().unwrap_or(""), endpoint, what), detail(what, extra));
+    };
+    // whatever happened, a handler event must carry exactly the supplied arguments
+    for c in &out.calls {
+        if c.endpoint != endpoint {
+            fail(rep, "wrong-handler", json!(c.endpoint));
+            return;
+        }
+        if c.args != args {
+            let diff: Vec<_> = c.args.iter().zip(args).filter(|(a, b)| a != b).map(|(a, b)| json!({"handler": a, "supplied": b})).collect();
+            fail(rep, "arguments-differ", json!(diff));
+            return;
+        }
+    }
+    if out.calls.len() > 1 {
+        fail(rep, "handler-invoked-more-than-once", json!(out.calls.len()));
+        return;
+    }
+    match &out.result {
+        Err(p) => fail(rep, "panic", json!(p)),
+        Ok(Ok(ret)) => {
+            if expect_handler_error {
+                fail(rep, "handler-error-lost", json!(ret));
+            } else if out.calls.len() != 1 {
+                fail(rep, "value-returned-without-handler", json!(ret));
+            } else if *ret != out.calls[0].ret {
+                fail(rep, "return-value-differs", json!({"client": ret, "handler": out.calls[0].ret}));
+            }
+        }
+        Ok(Err(e)) => {
+            if expect_handler_error {
+                if out.calls.len() != 1 {
+                    fail(rep, "handler-not-invoked", json!(labrt::error_class(e)));
+                }
+            } else if !headers_ok {
+                // a header value HTTP cannot carry as text: refusal is fine, but then nothing may
+                // have been delivered
+                rep.cell(&format!("{}/refused-unrepresentable-header", flavour));
+                if !out.calls.is_empty() {
+                    fail(rep, "error-after-delivery", json!(labrt::error_class(e)));
+                }
+            } else {
+                fail(rep, "call-failed", json!({"class": labrt::error_class(e), "cause": e.cause().to_string(), "handler_error": out.exchange.handler_error}));
+            }
+        }
+    }
+}
+
+fn smile_value<T: DeserializeOwned + Serialize>(body: &[u8]) -> Result<String, String> {
+    smile::client_from_slice::<T>(body).map(|v| j(&v)).map_err(|e| e.to_string())
+}
+
+/// Decodes a Smile response body by the endpoint's return type and renders it like `Call::ret`.
+fn smile_decode(req: &Req, body: &[u8]) -> Option<Result<String, String>> {
+    use std::collections::{BTreeMap, BTreeSet};
+    Some(match req {
+        Req::PathMore { .. } | Req::SmallBody(_) | Req::HeaderAuth { .. } | Req::SafeMix(_) => smile_value::<String>(body),
+        Req::QueryParams { .. } => smile_value::<Vec<String>>(body),
+        Req::Headers { .. } => smile_value::<BTreeMap<String, String>>(body),
+        Req::JsonBody(_) => smile_value::<Payload>(body),
+        Req::OptBody(_) => smile_value::<Option<Item>>(body),
+        Req::ListBody(_) => smile_value::<BTreeSet<conjure_object::DoubleKey>>(body),
+        Req::ChoiceBody(_) => smile_value::<Choice>(body),
+        Req::MapReturn(_) => smile_value::<BTreeMap<String, f64>>(body),
+        Req::OptReturn(_) => smile_value::<Option<String>>(body),
+        Req::AliasOptReturn(_) => smile_value::<MaybeCount>(body),
+        Req::CookieAuth { .. } => smile_value::<i32>(body),
+        _ => return None,
+    })
+}
+
+fn sink_case(seed: u64, rep: &mut Report, flavour: &'static str) {
+    let mut r = Rng::new(seed);
+    let req = Req::gen(&mut r);
+    let rec = Arc::new(Recorder::default());
+    let handler = Handler { rec: rec.clone() };
+    let smile = flavour.ends_with("smile");
+    rep.sample(4, || json!({"sub": flavour, "case_seed": seed, "endpoint": req.endpoint(), "args": req.args()}));
+    let (result, exchange) = if flavour.starts_with("blocking") {
+        let lb = Loopback::new(sync_endpoints(handler), r.u64());
+        if smile {
+            *lb.override_accept.lock().unwrap() = Some(http::HeaderValue::from_static("application/x-jackson-smile"));
+        }
+        let client = SinkServiceClient::new(&lb);
+        let res = guarded(|| invoke_sync(&client, &req));
+        (res, lb.last())
+    } else {
+        let lb = AsyncLoopback::new(async_endpoints(handler), r.u64());
+        if smile {
+            *lb.override_accept.lock().unwrap() = Some(http::HeaderValue::from_static("application/x-jackson-smile"));
+        }
+        let client = SinkServiceAsyncClient::new(&lb);
+        let res = guarded(|| block_on(invoke_async(&client, &req)));
+        (res, lb.last())
+    };
+    let calls = rec.take();
+    if !smile {
+        let texts = req.header_texts();
+        judge(rep, flavour, seed, flavour, req.endpoint(), &req.args(), &texts, matches!(req, Req::Fails(_)), Outcome { result, calls, exchange });
+        return;
+    }
+    // Smile negotiation: the generated client asks for JSON, so the monitor plays the client for
+    // the response half: the transport forced `Accept: application/x-jackson-smile`.
+    let Some(body) = exchange.response_body.clone() else {
+        rep.cell(&format!("{}/no-body", flavour));
+        return;
+    };
+    let ct = exchange.response_headers.iter().find(|(k, _)| k == "content-type").map(|(_, v)| String::from_utf8_lossy(v).to_string());
+    let Some(decoded) = smile_decode(&req, &body) else {
+        rep.cell(&format!("{}/not-serializable-return", flavour));
+        return;
+    };
+    rep.evaluations += 1;
+    rep.cell(&format!("{}/{}", flavour, req.endpoint()));
+    rep.distinct.insert(fnv(&format!("{}|{}|{}", flavour, req.endpoint(), features(&req.args()))));
+    let detail = json!({"flavour": flavour, "endpoint": req.endpoint(), "supplied": req.args(), "content_type": ct, "status": exchange.status});
+    if calls.len() != 1 || calls[0].args != req.args() {
+        rep.violation(flavour, seed, format!("{}:{}:handler-events", flavour, req.endpoint()), detail);
+        return;
+    }
+    if ct.as_deref() != Some("application/x-jackson-smile") {
+        rep.violation(flavour, seed, format!("{}:{}:not-negotiated-to-smile", flavour, req.endpoint()), detail);
+        return;
+    }
+    match decoded {
+        Ok(v) if v == calls[0].ret => {}
+        Ok(v) => rep.violation(flavour, seed, format!("{}:{}:return-value-differs", flavour, req.endpoint()), json!({"case": detail, "client": v, "handler": calls[0].ret})),
+        Err(e) => rep.violation(flavour, seed, format!("{}:{}:smile-body-undecodable", flavour, req.endpoint()), json!({"case": detail, "error": e})),
+    }
+}
+
+fn hand_case(seed: u64, rep: &mut Report, flavour: &'static str) {
+    let mut r = Rng::new(seed);
+    let req = hand::HReq::gen(&mut r);
+    let rec = Arc::new(Recorder::default());
+    let handler = hand::HandHandler { rec: rec.clone() };
+    rep.sample(6, || json!({"sub": flavour, "case_seed": seed, "endpoint": req.endpoint(), "args": req.args()}));
+    let (result, exchange) = if flavour.starts_with("blocking") {
+        let lb = Loopback::new(hand::sync_endpoints(handler), r.u64());
+        let client = hand::HandApiClient::new(&lb);
+        let res = guarded(|| hand::invoke_sync(&client, &req));
+        (res, lb.last())
+    } else {
+        let lb = AsyncLoopback::new(hand::async_endpoints(handler), r.u64());
+        let client = hand::AsyncHandApiClient::new(&lb);
+        let res = guarded(|| block_on(hand::invoke_async(&client, &req)));
+        (res, lb.last())
+    };
+    let calls = rec.take();
+    if req.observed_only() {
+        rep.observed_only("multi-segment-path-parameter");
+        return;
+    }
+    let texts = req.header_texts();
+    judge(rep, flavour, seed, flavour, req.endpoint(), &req.args(), &texts, false, Outcome { result, calls, exchange });
+}
+
+pub fn run(ctx: &Ctx, report: &mut Report) {
+    let n = ctx.n(12_000, 600_000);
+    ctx.cases(report, "blocking/generated", n, |s, rep| sink_case(s, rep, "blocking/generated"));
+    ctx.cases(report, "async/generated", n, |s, rep| sink_case(s, rep, "async/generated"));
+    ctx.cases(report, "blocking/generated/smile", n / 3, |s, rep| sink_case(s, rep, "blocking/generated/smile"));
+    ctx.cases(report, "async/generated/smile", n / 3, |s, rep| sink_case(s, rep, "async/generated/smile"));
+    ctx.cases(report, "blocking/macro", n / 2, |s, rep| hand_case(s, rep, "blocking/macro"));
+    ctx.cases(report, "async/macro", n / 2, |s, rep| hand_case(s, rep, "async/macro"));
+    if ctx.replay.is_none() && ctx.scale >= 1.0 {
+        // every generated endpoint reached with an ok outcome in both flavours
+        let ok_b = report.matrix.keys().filter(|k| k.starts_with("blocking/generated/") && k.ends_with("/ok")).count() as u64;
+        let ok_a = report.matrix.keys().filter(|k| k.starts_with("async/generated/") && k.ends_with("/ok")).count() as u64;
+        report.floor("blocking-endpoints-ok", 21, ok_b);
+        report.floor("async-endpoints-ok", 21, ok_a);
+        let m = report.matrix.keys().filter(|k| k.contains("/macro/") && k.ends_with("/ok")).count() as u64;
+        report.floor("macro-endpoints-ok", 2 * hand::ENDPOINTS as u64, m);
+    }
+    report.notes.push("distinct = (flavour, endpoint, outcome class, argument feature set (reserved characters, non-ASCII, empty, null, NaN, empty collection), header representability)".into());
 }
